@@ -570,6 +570,12 @@ class Interp:
     def ev(self, e, env):
         self.tick()
         e0 = e
+        if e.get('k') == 'AddrOf' and e.get('mut') and (e.get('ty') or '').startswith('&mut ') and int_ty((e.get('ty') or '')[5:].strip()) is not None:
+            # `&mut n` of an integer local: a reference to the variable's slot, so that writes through it in a callee reach the variable
+            in_ = hir.strip(e['e'])
+            l_ = hir.local(in_) if in_ is not None else None
+            if l_ and l_[1] in env and isinstance(env[l_[1]], int) and not isinstance(env[l_[1]], bool):
+                return Cell(env, l_[1])
         deref_ = False
         while e is not None and (e.get('k') == 'AddrOf' or (e.get('k') == 'Unary' and e['op'] == 'Deref') or (e.get('k') == 'Block' and not e['stmts'] and e['expr'] is not None)):
             deref_ = deref_ or e.get('k') == 'Unary'
@@ -733,7 +739,8 @@ class Interp:
                         raise Panics('attempt to divide by zero')
                     q_ = abs(a) // abs(b) * (1 if (a >= 0) == (b >= 0) else -1)      # Rust truncates toward zero
                     return q_ if op == 'Div' else a - b * q_
-                if op in ('Div', 'Rem') and isinstance(a, float) and isinstance(b, float):
+                if op in ('Div', 'Rem') and (isinstance(a, float) or isinstance(b, float)) and all(isinstance(x, (int, float)) and not isinstance(x, bool) for x in (a, b)):
+                    a, b = float(a), float(b)
                     import math
                     if op == 'Rem':
                         return math.fmod(a, b) if (b != 0 and not math.isinf(a)) else float('nan')
@@ -1083,6 +1090,8 @@ class Interp:
             return [] if recv == NONE else [recv[1]]          # an Option iterates over zero or one element
         if isinstance(recv, dict) and '__struct__' in recv and nm in ('iter', 'into_iter', 'iter_mut') and not args and self._inlinable(e.get('callee') or ''):
             return self.local_call(e['callee'], [recv])          # the type's own iterator method
+        if nm == 'into' and not args and (e.get('ty') or '').strip() in ('f64', 'f32') and isinstance(recv, int) and not isinstance(recv, bool):
+            return float(recv)
         if nm in ('clone', 'to_owned', 'copied', 'cloned', 'iter', 'into_iter', 'iter_mut', 'by_ref', 'as_slice', 'to_vec', 'as_ref', 'as_mut', 'borrow', 'peekable', 'into', 'as_deref') and not args:
             if nm in ('clone', 'to_owned', 'to_vec', 'cloned', 'copied') and isinstance(recv, (list, dict)):
                 return deep_clone(recv)
